@@ -1349,3 +1349,17 @@ def s18_now(E):
             r = out[1]
             okv = raw_of(ok_payload(r)) == expect if "Ok" in r.p else z3.BoolVal(False)
             yield pc, z3.And(r.d == 0, okv), "TryFrom<Time> for %s = that time on the current local date" % ret
+
+
+def s16_sub_date(E):
+    """the difference of two Oracle-style dates is their exact microsecond distance divided by one
+    day, computed in f64 (floats are uninterpreted: the claim is the expression, not IEEE rounding)"""
+    a = E.int_in("a_secs", "i64", TS_MIN // 1_000_000, TS_MAX // 1_000_000)
+    b = E.int_in("b_secs", "i64", TS_MIN // 1_000_000, TS_MAX // 1_000_000)
+    fdiv = z3.Function("f64_div", z3.RealSort(), z3.RealSort(), z3.RealSort())
+    f = [x for x in E.by_last["sub_date"] if x.name.startswith("oracle::")]
+    for pc, out in E.run(f[0], [od_of(a * 1_000_000), od_of(b * 1_000_000)], []):
+        if out[0] == "panic":
+            yield pc, "panic", out[1]
+            continue
+        yield pc, out[1] == fdiv(z3.ToReal((a - b) * 1_000_000), z3.ToReal(z3.IntVal(D))), "OracleDate::sub_date = (a - b) microseconds / 86400e6 in f64"
